@@ -15,6 +15,15 @@ ROW_KINDS = ("array2d", "array1d", "list2d", "list1d", "intarray", "frame", "ser
 BATCH_KINDS = ("array", "fortran", "frame", "lists", "intarray", "strided", "reused", "intframe")
 
 
+NARROW = {"uint8array": (np.uint8, 0, 255), "uint16array": (np.uint16, 0, 65535), "int32array": (np.int32, -2 ** 31, 2 ** 31 - 1)}
+
+
+def _narrow(kind, values):
+    """the narrow integer dtype of `kind` when every value is whole and representable (sensor bytes, 16-bit counts), float64 otherwise"""
+    dt, lo, hi = NARROW[kind]
+    return dt if all(_whole(v) and lo <= v <= hi for v in values) else float
+
+
 def _whole(v):
     return float(v) == int(v)
 
@@ -58,6 +67,8 @@ class Feeder:
             return tuple(_pyrow(x))
         if kind == "intarray":
             return np.array([x], dtype=np.int64 if all(_whole(v) for v in x) else float)
+        if kind in NARROW:
+            return np.array([x], dtype=_narrow(kind, x))
         if kind == "frame":
             return pd.DataFrame([[float(v) for v in x]], columns=self._names(d))
         if kind == "series":
@@ -92,6 +103,8 @@ class Feeder:
             return [_pyrow(r) for r in rows]
         if kind == "intarray":
             return a.astype(np.int64) if bool(np.all(a == np.round(a))) else a
+        if kind in NARROW:
+            return a.astype(_narrow(kind, a.ravel().tolist()))
         if kind == "strided":
             big = np.full((2 * n, d + 1), -12345.0)
             big[::2, :d] = a
